@@ -331,6 +331,10 @@ def run(chk):
         "float subtraction of finite numbers is a parameter of the model; theorems hold for every such function; the executable "
         "instance (exact difference rounded to nearest-even at 53 bits) and the comparisons are validated against numpy each run",
         "C09_radius: scipy gammaincinv / chi.ppf / power are monotone with the stated inverse property (validated numerically)",
+        "oracle: the latent draws follow the density whose log-density populate uses as log_q (truncated Gaussian, uniform n-ball / "
+        "n-sphere through alt_dist, Gaussian, uniform, the flow's base) - the hypothesis under which C09_rejection_identity gives "
+        "'pool = prior restricted to the contour'; validated each run on the real prep_latent_prior / draw_latent_prior in 1, 2, 3, 8 "
+        "dimensions by exact binomial bounds on fixed bins (false-alarm probability < 1e-9 per case), not proved",
         "Model.new_point of a user model is assumed to return points of the prior support (analytic proposal); the default "
         "implementation is modelled and checked",
         "NOT proved: 'distributed as the prior restricted to the contour' (statistical; the code normalises by the batch maximum); "
